@@ -244,8 +244,21 @@ def run_one(ck, prog):
     # "issues the call once per invocation": no Ok return of a rusl wrapper is reachable without passing one of its raw
     # syscall sites (a shortcut that answers without asking the kernel also skips the call's side effects).
     n7 = 0
+    from ..engine import pathsens
     for path, fn in sorted(prog.fns.items()):
-        if fn["crate"] != "rusl" or fn["kind"] == "Closure" or "::test" in path or not fn["locals"][0]["ty"].startswith("core::result::Result<"):
+        if fn["crate"] != "rusl" or fn["kind"] == "Closure" or "::test" in path:
+            continue
+        if not fn["locals"][0]["ty"].startswith("core::result::Result<"):
+            # a wrapper that cannot fail (getpid, getuid ..) still asks the kernel every time: no return without the call (a value cached
+            # in a static is the parent's answer in a forked child)
+            if any(b["term"]["k"] == "call" and is_raw_syscall(b["term"].get("callee")) for b in fn["blocks"]):
+                cx = prog.ctx(fn)
+                sites0 = {bb for bb, t in cx.cfg.calls(lambda t: is_raw_syscall(t.get("callee")))}
+                r0 = cx.cfg.reachable_from(0, avoid=sites0)
+                skipped = [rb for rb in cx.cfg.return_blocks() if rb in r0]
+                n7 += 1
+                ck.ob("C09.7", f"{path}|answer-only-after-syscall", not skipped, fn=path, site=cx.site(skipped[0]) if skipped else None,
+                      detail="the wrapper can return without issuing its system call (a cached or short-circuited answer)")
             continue
         if not any(b["term"]["k"] == "call" and is_raw_syscall(b["term"].get("callee")) for b in fn["blocks"]):
             continue
@@ -258,6 +271,19 @@ def run_one(ck, prog):
         n7 += 1
         r = ctx.cfg.reachable_from(0, avoid=sites)
         bad = [b for b in oks if b in r]
+        # ... and what the kernel reported as success stays a success: from the classifier's "no error" edge no `Err(..)` is built before
+        # another call is made (turning a result of 0 - end of file - into an error invents a failure the kernel did not report)
+        inv = []
+        for sb in ctx.cfg.live_blocks():
+            if ctx.cfg.term(sb)["k"] != "switch":
+                continue
+            for e in ctx.cfg.succ[sb]:
+                for f in ctx.edge_facts(e):
+                    if f[0] == "truth" and f[2] is False and isinstance(f[1], tuple) and f[1][0] == "call" and (f[1][1] or "") == CLASSIFIERS[0]:
+                        rr = pathsens.reachable(ctx, e.dst, avoid=sites, via_edge=(e.src, e.dst))
+                        inv += [b for b in rr if any(s2["k"] == "assign" and s2["dst"]["l"] == 0 and not s2["dst"].get("p") and s2["rv"]["k"] == "agg" and s2["rv"].get("variant") == "Err" for s2 in ctx.cfg.block(b)["stmts"])]
+        ck.ob("C09.7", f"{path}|kernel-success-stays-success", not inv, fn=path, site=ctx.site(inv[0]) if inv else None,
+              detail="after the kernel's result was classified as success the wrapper still builds an error")
         ck.ob("C09.7", f"{path}|success-only-after-syscall", not bad, fn=path, site=ctx.site(bad[0]) if bad else None,
               detail="the wrapper can return Ok without having issued its system call on that path (the kernel-side effect of the call, e.g. dup3 clearing O_CLOEXEC, silently does not happen)")
     ck.floor("C09.7", "wrappers with an Ok return", n7, 40)
